@@ -15,7 +15,7 @@ from .. import cover, emmon, gen, ref
 LEVEL = 'exploration'
 JOBS = {'quick': 4, 'thorough': 16}
 REQUIRED_MONITORS = ('result_vs_fresh_map', 'shadow_comparison', 'rejection')
-REQUIRED_CLASSES = ('mutate-construction:renumber', 'op:call', 'op:call-repeat', 'op:reject', 'op:mutate-ref', 'op:mutate-target', 'op:mutate-result',
+REQUIRED_CLASSES = ('reference:exactly-collinear-anchors', 'mutate-construction:renumber', 'op:call', 'op:call-repeat', 'op:reject', 'op:mutate-ref', 'op:mutate-target', 'op:mutate-result',
                     'op:mutate-argument', 'multi-residue', 'shipped-pair', 'reject:other-atom-names', 'reject:non-molecule',
                     'call-after-reject', 'call-after-mutation', 'mutate-argument:partial', 'mutate-argument:rotate-about-own-atom',
                     'reject:same-foreign-object-again')
@@ -76,11 +76,16 @@ def make_case(ctx, rng, i):
             b.move_to(a.geometric_center)
             ctx.hit('shipped-pair')
             return a, b, 0.5, label, False
+    exact = i % 4 == 3      # references with exactly collinear anchors (frames there are fixed by a convention of the library)
     for _ in range(50):
-        edges, pos, info = emmon.gen_reference(rng, 'generic', nmax=14)
+        geometry = ['partial-collinear', 'linear-int', 'lattice', 'partial-collinear-z', 'linear-x'][int(rng.integers(0, 5))] if exact else 'generic'
+        edges, pos, info = emmon.gen_reference(rng, geometry, nmax=14)
         n = len(pos)
-        if ref.anchors_of(n, edges) and emmon.frames_ok(n, edges, pos, allow_collinear=False):
+        if ref.anchors_of(n, edges) and emmon.frames_ok(n, edges, pos, allow_collinear=exact):
             break
+    if exact:
+        ctx.hit('reference:exactly-collinear-anchors')
+    _exact['on'] = exact
     tpos = emmon.gen_target(rng, pos, 'around', mmax=30)
     multi = rng.random() < 0.4
     refm, tgtm = emmon.build_pair(rng, edges, pos, tpos, multi_res=multi)
@@ -89,12 +94,25 @@ def make_case(ctx, rng, i):
     return refm, tgtm, emmon.gen_scale(rng, emmon.SCALES[int(rng.integers(0, 3))]), 'generated', len(refm.resids) > 1
 
 
+_exact = {'on': False}
+
+
 def conformation(rng, refm, k):
     pos = np.array(refm.atoms_positions)
-    conf = pos + rng.normal(size=pos.shape) * 0.03
-    R, t = gen.random_rotation(rng), rng.normal(size=3) * 4
     arg = refm.copy()
-    arg.atoms_positions = conf @ R.T + t
+    if _exact['on'] and k % 2 == 0:
+        # rigid motions that are exact in floating point for the dyadic coordinates of these references (axes permuted
+        # and reflected in pairs, shifts by multiples of 1/8): collinear anchors stay exactly collinear, in another direction
+        perm = rng.permutation(3)
+        P = np.zeros((3, 3))
+        P[np.arange(3), perm] = rng.choice([-1.0, 1.0], 3)
+        if np.linalg.det(P) < 0:
+            P[0] = -P[0]
+        arg.atoms_positions = pos @ P.T + rng.integers(-40, 41, 3) * 0.125
+    else:
+        conf = pos + rng.normal(size=pos.shape) * 0.03
+        R, t = gen.random_rotation(rng), rng.normal(size=3) * 4
+        arg.atoms_positions = conf @ R.T + t
     nres = len(arg.resids)
     style = int(rng.integers(0, 4))
     if style == 0:
